@@ -30,9 +30,13 @@ Definition step_ok (o : op) (p c : obs) : bool :=
   (* positions ordered *)
   (-1 <=? o_qack c) && (o_qack c <=? o_app c) &&
   forallb (fun '(_, (cs, ak)) => (-1 <=? ak) && (ak <=? cs) && (cs <=? o_app c)) (o_groups c) &&
-  (* queue ack only moves forward; when it moves it is bounded by the previous group acks *)
-  (o_qack p <=? o_qack c) &&
-  ((o_qack c =? o_qack p) || forallb (fun '(_, (_, ak)) => o_qack c <=? ak) (o_groups p)) &&
+  (* queue ack only moves forward; when it moves it is bounded by the previous group acks (outside the explicit reset,
+     after which the log head, the queue ack and both positions of every attached group are the given value) *)
+  (match o with
+   | SetAppended v => (o_app c =? v) && (o_qack c =? v) && forallb (fun '(_, (cs, ak)) => (cs =? v) && (ak =? v)) (o_groups c)
+   | _ => (o_qack p <=? o_qack c) &&
+          ((o_qack c =? o_qack p) || forallb (fun '(_, (_, ak)) => o_qack c <=? ak) (o_groups p))
+   end) &&
   (* consume: next sequence or nothing *)
   (match o with
    | Consume n => match glookup n (o_groups p) with
